@@ -9,8 +9,10 @@
 (apply(files, site, rng) -> files: an edit of the rendering, for layout and token-level rules).
 
 Every injection must be CERTAINLY illegal: a legal spec passed off as a violation would be a false alarm.  Rules whose
-violation the present compiler is known to accept (holes) are ordinary rules here; the suite reports an accepted
-case with the rule id.  `UNBUILT` lists catalogue entries without an injector.
+violation the present compiler is known to accept (holes: A15.alias, A15.early, A22.alias) are ordinary rules here;
+the suite reports an accepted case with the rule id.  (Two patches of one type used to be injected as a violation;
+since all patches of a type are applied that is legal -- corpus/C01 keeps it as a seed that must be accepted --
+and the injector now makes the two patches add the same member.)  `UNBUILT` lists catalogue entries without an injector.
 """
 import re
 from dataclasses import dataclass
@@ -1378,16 +1380,17 @@ def _unpatched(model, kinds=('struct', 'union')):
             if sg.find_patch(model, model.namespaces[ni].name, model.namespaces[ni].defs[di].name) is None]
 
 
-@rule('B9.twice', 'two patches for one type (the second silently replaces the first)')
-class _B9t:
+@rule('B11.twice', 'two patches of one type that add the same member (several patches of one type are legal and all '
+      'applied; the second definition of the member is a clash: B11 / A24)')
+class _B11t:
     def sites(model):
         return _unpatched(model)
 
     def apply(model, s, rng):
         ns = model.namespaces[s[0]]
         d = ns.defs[s[1]]
-        add_def(ns, _patch_of(d, [_new_member(d, 'zq_patch_one')]), rng)
-        add_def(ns, _patch_of(d, [_new_member(d, 'zq_patch_two')]), rng)
+        add_def(ns, _patch_of(d, [_new_member(d, 'zq_patch_one'), _new_member(d, 'zq_patch_both')]), rng)
+        add_def(ns, _patch_of(d, [_new_member(d, 'zq_patch_both'), _new_member(d, 'zq_patch_two')]), rng)
 
 
 @rule('B10', 'patch kind must match the patched type: struct / union / union_closed, alias or route cannot be patched')
